@@ -83,6 +83,17 @@ class C12(Prop):
                         if after and after[0] == "poll" and sts[j + 1] != 200:
                             res.append(("seq:buffered-messages-lost-at-backend-close", "backend sent a message and closed; the first poll afterwards answered %s instead of delivering the message" % sts[j + 1], rp))
                 break
+            # calls naming a closed session are rejected with 400
+            closed_by = None
+            for op, st in zip(ops, sts):
+                # (after the backend closed, a poll may still deliver buffered messages and a close still closes the session)
+                if closed_by and st == 200 and ((closed_by == "close" and op in ("data", "poll", "close")) or (closed_by == "backend-close" and op == "data")):
+                    res.append(("seq:call-on-closed-session-accepted", "%s after %s was answered 200" % (op, closed_by), rp))
+                    break
+                if op == "close" and st == 200:
+                    closed_by = "close"
+                elif op == "backend-close":
+                    closed_by = closed_by or "backend-close"
             # a close must be seen by the backend
             if "close" in r["ops"] and r["statuses"][r["ops"].index("close")] == 200 and not r.get("backend_saw_end"):
                 res.append(("seq:close-not-propagated", "close answered 200 but the backend connection stayed open", rp))
